@@ -333,7 +333,27 @@ package values
 //@ panics values.TypeError
 //@ requires fn: rv_valid(fn) && !rv_iface(fn) && kind(rv_val(fn)) == reflect.Func
 //@ ensures parity: !tvariadic(typeof(rv_val(fn))) && len(args) > tnumin(typeof(rv_val(fn))) ==> err != nil && is(err, *values.CallParityError) && as(err, *values.CallParityError).NumArgs == len(args) && as(err, *values.CallParityError).NumParams == tnumin(typeof(rv_val(fn)))
+//@ ensures errPtr: is(err, *values.CallParityError) ==> pl_ptr(err) != 0
 //@ ensures accepted: tvariadic(typeof(rv_val(fn))) || len(args) <= tnumin(typeof(rv_val(fn))) ==> err == nil
 //@ ensures oneEach: err == nil && !tvariadic(typeof(rv_val(fn))) ==> len(results) == tnumin(typeof(rv_val(fn)))
 //@ loop 1 invariant size: fresh(results) && len(results) == ite(tvariadic(typeof(rv_val(fn))), max(len(args), tnumin(typeof(rv_val(fn))) - 1), tnumin(typeof(rv_val(fn)))) && (tvariadic(typeof(rv_val(fn))) || len(args) <= tnumin(typeof(rv_val(fn))))
 //@ loop 2 invariant size: fresh(results) && len(results) == ite(tvariadic(typeof(rv_val(fn))), max(len(args), tnumin(typeof(rv_val(fn))) - 1), tnumin(typeof(rv_val(fn)))) && len(args) <= i
+
+//@ func values.convertCallResults
+//@ unverified
+//@ props C08 C01
+//@ panics values.TypeError
+//@ assigns nothing
+//@ ensures errPtr: is(result1, *values.CallParityError) ==> pl_ptr(result1) != 0
+
+// Call converts the arguments to the filter's parameter types and calls it through
+// reflection; the filter itself is outside the contracts. More arguments than parameters is
+// a CallParityError.
+//@ func values.Call
+//@ props C08 C01
+//@ requires fn: rv_valid(fn) && !rv_iface(fn) && kind(rv_val(fn)) == reflect.Func
+//@ assigns *
+//@ panics values.TypeError
+//@ ensures cells: sameold("P$Fn") && sameold("P$Val") && sameold("S$Val") && sameold("S$Fn") && sameold("M$has$Str$Val") && sameold("M$val$Str$Val") && sameold("F$expressions.context$Config") && sameold("F$expressions.context$bindings")
+//@ ensures parityErr: is(result1, *values.CallParityError) ==> pl_ptr(result1) != 0
+//@ ensures parity: !tvariadic(typeof(rv_val(fn))) && len(args) > tnumin(typeof(rv_val(fn))) ==> result1 != nil
